@@ -760,6 +760,7 @@ var (
 	errDestinationEqualsSource = errors.New("webdav: destination equals source")
 	errDestinationOverlaps     = errors.New("webdav: destination and source contain one another")
 	errDirectoryNotEmpty       = errors.New("webdav: directory not empty")
+	errFileTooLarge            = errors.New("webdav: file too large")
 	errInvalidDepth            = errors.New("webdav: invalid depth")
 	errInvalidDestination      = errors.New("webdav: invalid destination")
 	errInvalidIfHeader         = errors.New("webdav: invalid If header")
